@@ -10,6 +10,8 @@ ANCHORS = ['prover/circuit_utils.go', 'prover/insertion_circuit.go', 'prover/del
 
 def sizes(kind, tier):
     dmax = 32 if kind == 'ins' else 31
+    if os.environ.get('VERIF_DEBUG_SIZES'):       # debugging aid only ("1x1,3x2"); the evidence states the sizes actually run
+        return [tuple(int(x) for x in p.split('x')) for p in os.environ['VERIF_DEBUG_SIZES'].split(',')]
     if tier == 'quick':
         return [(1, 1), (2, 2), (3, 2), (4, 3), (6, 4), (8, 2), (12, 2), (16, 1), (16, 2), (24, 1), (dmax, 1), (dmax, 2)]
     s = [(d, 1) for d in range(1, dmax + 1)]
@@ -66,7 +68,7 @@ def main(pid, kind):
         if [str(poseidon_ref.hash(p)) for p in pts] != got:
             run.inconclusive.append('reference Poseidon disagrees with iden3 on sample points')
         # ---- the deciding queries
-        tasks = [{'kind': kind, 'D': D, 'B': B, 'path': paths['%s_%d_%d' % (kind, D, B)], 'timeout': 2400 if run.thorough else 180} for D, B in szs]
+        tasks = [{'kind': kind, 'D': D, 'B': B, 'path': paths['%s_%d_%d' % (kind, D, B)], 'timeout': 2400 if run.thorough else 180, 'stagger': 300 if run.thorough else 25} for D, B in szs]
         for t_ in tasks:
             t_['diff'] = (t_['D'], t_['B']) in ((3, 2), (8, 2), (4, 3))
         tasks.sort(key=lambda t: -t['D'] * t['B'])
@@ -79,7 +81,7 @@ def main(pid, kind):
                 continue
             for o in res['obls']:
                 model = o.pop('model', None)
-                ok = run.obligation(o['name'], o['verdict'], o['expect'], o['secs'], constraints=res['constraints'], lift_s=res.get('lift_s'))
+                ok = run.obligation(o['name'], o['verdict'], o['expect'], o['secs'], constraints=res['constraints'], lift_s=res.get('lift_s'), portfolio=o.get('portfolio'))
                 if not ok and o['verdict'] == 'sat' and model is not None:
                     handle_cex(run, kind, gk, task['D'], task['B'], o, model, paths)
                 elif not ok and o['verdict'] == 'unsat':
@@ -124,6 +126,7 @@ def handle_cex(run, kind, gk, D, B, o, model, paths):
                                                                                      'valid' if rep['oracle_valid'] else 'violated', rep['oracle_reason'])
             run.violation(what, rep, key='%s-%s' % (kind, 'accepts-invalid' if rep['circuit_accepts'] else 'rejects-valid'))
         else:
-            run.inconclusive.append('%s: sat in the abstraction but the concretised model does not separate circuit and oracle' % o['name'])
+            run.inconclusive.append('%s: sat in the abstraction but the concretised model does not separate circuit and oracle (concretised=%s circuit_accepts=%s oracle_valid=%s: %s)'
+                                    % (o['name'], o.get('concretised'), rep['circuit_accepts'], rep['oracle_valid'], rep['oracle_reason']))
     except (Inconclusive, Exception) as e:  # noqa
         run.inconclusive.append('%s: replay failed: %r' % (o['name'], e))
